@@ -21,3 +21,8 @@ func RaceRelease(p unsafe.Pointer)      { runtime.RaceRelease(p) }
 func RaceReleaseMerge(p unsafe.Pointer) { runtime.RaceReleaseMerge(p) }
 func RaceRead(p unsafe.Pointer)         { runtime.RaceRead(p) }
 func RaceWrite(p unsafe.Pointer)        { runtime.RaceWrite(p) }
+
+// RaceReadRange / RaceWriteRange declare an access to caller memory made by simulator code that is itself
+// invisible to the detector (the simulated connection reading from / writing into the caller's buffer).
+func RaceReadRange(p unsafe.Pointer, n int)  { runtime.RaceReadRange(p, n) }
+func RaceWriteRange(p unsafe.Pointer, n int) { runtime.RaceWriteRange(p, n) }
